@@ -114,6 +114,12 @@ func runC17(c *Ctx) {
 			stream[i] = alphabet[g.Draw(len(alphabet))]
 		}
 	}
+	// one run in eight: the stream begins with the bytes of a UTF-8 byte order
+	// mark, as the output of some tools does; they are content like any other
+	if g.Chance(8) {
+		stream = append([]byte("\xef\xbb\xbf"), stream...)
+		c.R.Probe("stream that begins with a byte order mark")
+	}
 	// one run in six (of the short ones): repetitive output, as a compiler or a
 	// test runner produces it - lines from a small vocabulary, many of them
 	// repeated. The vocabulary holds lines of equal length that differ in a few
